@@ -989,6 +989,10 @@ func (c *Ctx) print(sb *strings.Builder, t *Term, names map[*Term]string, depth 
 		fmt.Fprintf(sb, "((_ %s %d) ", t.Op, t.I)
 		c.print(sb, t.Args[0], names, depth+1)
 		sb.WriteByte(')')
+	case "rootid":
+		sb.WriteString("(rootid ")
+		c.print(sb, t.Args[0], names, depth+1)
+		sb.WriteByte(')')
 	case "is-root":
 		sb.WriteString("((_ is root) ")
 		c.print(sb, t.Args[0], names, depth+1)
